@@ -5,6 +5,7 @@ import RedisVerif.Lemmas.Sim
 import RedisVerif.Model.SimMore
 import RedisVerif.Lemmas.SimMore
 import RedisVerif.Model.SimCluster
+import RedisVerif.Model.SimBuggify
 
 /-!
 # C20 — Simulation is reproducible: same seed, same trace, same verdict
@@ -41,7 +42,7 @@ claimed here is different (DESIGN §4 C20):
 namespace RedisVerif
 namespace C20
 
-open SimRng SimKernel SimHarness SimLemmas SimMore SimMoreLemmas SimCluster
+open SimRng SimKernel SimHarness SimLemmas SimMore SimMoreLemmas SimCluster SimBuggify SimFaultTable
 
 /-! ## T3 — the RNG wrappers -/
 
@@ -882,6 +883,274 @@ theorem cap_pending_keeps_newest (cap : Nat) (p : List Delta) :
   refine ⟨by simp only [List.length_drop]; omega, List.drop_suffix _ _⟩
 
 example : capPending 2 [(0, ⟨some 1, 1, 1⟩), (1, ⟨some 2, 2, 1⟩), (2, ⟨some 3, 3, 1⟩)] = [(1, ⟨some 2, 2, 1⟩), (2, ⟨some 3, 3, 1⟩)] := by decide
+
+
+/-! ## T6 — the BUGGIFY layer (`src/buggify/*`, Model/SimBuggify): every fault decision is a function of (seed, call index)
+
+A Lean function of `(context, calls, generator)` is deterministic by construction; what is proved
+is WHICH parts of its arguments a decision can depend on — so that the hidden state of the real
+code (the thread-local statistics, the `HashMap`s of the configuration and of the counters, the
+position in the stream) is accounted for:
+
+* the decisions and the generator do not depend on the check / trigger counters the thread carries
+  (`fault_decisions_independent_of_stats`);
+* the number of words a call sequence consumes is a function of the configuration / suppression
+  history alone (`fault_stream_position`): the `i`-th decision reads the word at position
+  `pos + drawCount(prefix)` — "(seed, call index)" made explicit;
+* the whole fault table derived from the source: for every fault of `ALL_FAULTS` under every preset
+  the probability `get` returns (exact f64 product) and the exact number of the 10^6 draw values
+  that trigger (`preset_get_table`, `preset_threshold_table`). -/
+
+/-- the catalogue generated from `faults.rs`: 40 ids -/
+theorem fault_catalogue_size : allFaults.length = 40 := by decide
+
+/-- settings of a context: everything but the counters -/
+def sameSettings (a b : Ctx) : Prop := a.cfg = b.cfg ∧ a.suppressed = b.suppressed
+
+/-- what a call sequence returns to its caller and leaves in the generator -/
+def visible {σ} (r : Except String (List Bool × Ctx × σ)) : Except String (List Bool × σ) :=
+  match r with
+  | .ok (ds, _, g) => .ok (ds, g)
+  | .error e => .error e
+
+theorem call_sameSettings {σ} (S : Sampler σ) (a b : Ctx) (h : sameSettings a b) (c : Call) (g : σ) :
+    (∃ e, a.call S c g = .error e ∧ b.call S c g = .error e) ∨
+    (∃ d a' b' g', a.call S c g = .ok (d, a', g') ∧ b.call S c g = .ok (d, b', g') ∧ sameSettings a' b') := by
+  obtain ⟨hc, hs⟩ := h
+  cases c with
+  | check id =>
+    simp only [Ctx.call, hc, hs]
+    by_cases hsup : b.suppressed
+    · simp only [hsup, if_true]; exact .inr ⟨_, _, _, _, rfl, rfl, ⟨rfl, rfl⟩⟩
+    · simp only [hsup]
+      by_cases hn : noChance (F64.ofBits (b.cfg.get id))
+      · simp only [hn, if_true]; exact .inr ⟨_, _, _, _, rfl, rfl, ⟨rfl, rfl⟩⟩
+      · simp only [hn]
+        cases hr : S.range 0 1000000 g with
+        | error e => exact .inl ⟨e, rfl, rfl⟩
+        | ok vg =>
+          exact .inr ⟨_, _, _, _, rfl, rfl, ⟨rfl, rfl⟩⟩
+  | checkProb id bits =>
+    simp only [Ctx.call, hc, hs]
+    by_cases hsup : (b.suppressed || !b.cfg.enabled)
+    · simp only [hsup, if_true]; exact .inr ⟨_, _, _, _, rfl, rfl, ⟨rfl, rfl⟩⟩
+    · simp only [hsup]
+      cases hr : S.range 0 1000000 g with
+      | error e => exact .inl ⟨e, rfl, rfl⟩
+      | ok vg =>
+        exact .inr ⟨_, _, _, _, rfl, rfl, ⟨rfl, rfl⟩⟩
+  | suppress x => exact .inr ⟨_, _, _, _, rfl, rfl, ⟨hc, rfl⟩⟩
+  | setConfig cfg => exact .inr ⟨_, _, _, _, rfl, rfl, ⟨rfl, hs⟩⟩
+  | resetStats => exact .inr ⟨_, _, _, _, rfl, rfl, ⟨hc, hs⟩⟩
+
+/-- full strength: the decisions a call sequence returns and the state it leaves the generator in
+    are the same whatever check / trigger counters the thread carried before (the counters are the
+    part of `BUGGIFY_CONTEXT` no harness resets): any generator, any calls, any configuration -/
+def C20_fault_decisions_independent_of_stats : Prop :=
+  ∀ (σ : Type) (S : Sampler σ) (a b : Ctx), sameSettings a b → ∀ (calls : List Call) (g : σ),
+    visible (runCalls S a calls g) = visible (runCalls S b calls g)
+
+theorem fault_decisions_independent_of_stats : C20_fault_decisions_independent_of_stats := by
+  intro σ S a b h calls
+  induction calls generalizing a b with
+  | nil => intro g; rfl
+  | cons c rest ih =>
+    intro g
+    rcases call_sameSettings S a b h c g with ⟨e, ha, hb⟩ | ⟨d, a', b', g', ha, hb, h'⟩
+    · simp only [runCalls, ha, hb, bind, Except.bind, visible]
+    · have := ih a' b' h' g'
+      simp only [runCalls, ha, hb, bind, Except.bind]
+      cases hra : runCalls S a' rest g' with
+      | error e =>
+        cases hrb : runCalls S b' rest g' with
+        | error e' => rw [hra, hrb] at this; simpa [visible] using this
+        | ok r => rw [hra, hrb] at this; simp [visible] at this
+      | ok ra =>
+        cases hrb : runCalls S b' rest g' with
+        | error e' => rw [hra, hrb] at this; simp [visible] at this
+        | ok rb =>
+          rw [hra, hrb] at this
+          obtain ⟨dsa, ca, ga⟩ := ra
+          obtain ⟨dsb, cb, gb⟩ := rb
+          simp only [visible, Except.ok.injEq, Prod.mk.injEq] at this
+          simp only [visible, pure, Except.pure, this.1, this.2]
+
+/-- non-vacuity: two contexts that differ in their counters only, a sequence with decisions that draw
+    (chaos: network.packet_drop triggers for the draw 150000 — `0.05 * 3.0` is `0.15000000000000002`) -/
+example : sameSettings { cfg := .chaos, checks := [(0, 31)] } { cfg := .chaos } ∧
+    (visible (runCalls streamSampler { cfg := .chaos, checks := [(0, 31)] } [.check 0, .checkProb 6 bits_1_0] (fun _ => 150000, 0))).toOption.map (·.1) =
+      some [true, true] := by
+  refine ⟨⟨rfl, rfl⟩, ?_⟩
+  decide
+
+/-- full strength: over a stream of words, a call sequence started at position `pos` ends at
+    `pos + drawCount …`, where `drawCount` looks at the configuration / suppression history only —
+    never at a drawn value, a decision or a counter.  The `i`-th decision therefore reads the word at
+    a position that is a function of the calls before it: (seed, call index) determines it. -/
+def C20_fault_stream_position : Prop :=
+  ∀ (ctx : Ctx) (calls : List Call) (f : Nat → Nat) (pos : Nat),
+    ∃ ds ctx', runCalls streamSampler ctx calls (f, pos) = .ok (ds, ctx', (f, pos + drawCount ctx.cfg ctx.suppressed calls))
+
+theorem call_stream (ctx : Ctx) (c : Call) (f : Nat → Nat) (pos : Nat) :
+    ∃ d ctx', ctx.call streamSampler c (f, pos) = .ok (d, ctx', (f, pos + (if c.draws ctx.cfg ctx.suppressed then 1 else 0))) ∧
+      ctx'.cfg = (match c with | .setConfig c' => c' | _ => ctx.cfg) ∧
+      ctx'.suppressed = (match c with | .suppress b => b | _ => ctx.suppressed) := by
+  cases c with
+  | check id =>
+    by_cases hsup : ctx.suppressed = true
+    · simp [Ctx.call, Call.draws, hsup, pure, Except.pure]
+      exact ⟨_, _, ⟨rfl, rfl⟩, rfl, rfl⟩
+    · by_cases hn : noChance (F64.ofBits (ctx.cfg.get id)) = true
+      · simp [Ctx.call, Call.draws, hsup, hn, pure, Except.pure]
+        exact ⟨_, _, ⟨rfl, rfl⟩, rfl, rfl⟩
+      · simp [Ctx.call, Call.draws, hsup, hn, streamSampler, bind, Except.bind, pure, Except.pure]
+        exact ⟨_, _, ⟨rfl, rfl⟩, rfl, rfl⟩
+  | checkProb id bits =>
+    by_cases hsup : ctx.suppressed = true
+    · simp [Ctx.call, Call.draws, hsup, pure, Except.pure]
+      exact ⟨_, _, ⟨rfl, rfl⟩, rfl, rfl⟩
+    · by_cases hen : ctx.cfg.enabled = true
+      · simp [Ctx.call, Call.draws, hsup, hen, streamSampler, bind, Except.bind, pure, Except.pure]
+        exact ⟨_, _, ⟨rfl, rfl⟩, rfl, rfl⟩
+      · simp [Ctx.call, Call.draws, hsup, hen, pure, Except.pure]
+        exact ⟨_, _, ⟨rfl, rfl⟩, rfl, rfl⟩
+  | suppress x => exact ⟨_, _, rfl, rfl, rfl⟩
+  | setConfig cfg => exact ⟨_, _, rfl, rfl, rfl⟩
+  | resetStats => exact ⟨_, _, rfl, rfl, rfl⟩
+
+theorem fault_stream_position : C20_fault_stream_position := by
+  intro ctx calls
+  induction calls generalizing ctx with
+  | nil => intro f pos; exact ⟨[], ctx, rfl⟩
+  | cons c rest ih =>
+    intro f pos
+    obtain ⟨d, ctx', hc, hcfg, hsup⟩ := call_stream ctx c f pos
+    obtain ⟨ds, ctx'', hr⟩ := ih ctx' f (pos + (if c.draws ctx.cfg ctx.suppressed then 1 else 0))
+    refine ⟨d.toList ++ ds, ctx'', ?_⟩
+    have hpos : pos + (if c.draws ctx.cfg ctx.suppressed then 1 else 0) + drawCount ctx'.cfg ctx'.suppressed rest =
+        pos + drawCount ctx.cfg ctx.suppressed (c :: rest) := by
+      rw [hcfg, hsup]
+      cases c <;> simp only [drawCount] <;> omega
+    simp only [runCalls, hc, hr, bind, Except.bind, pure, Except.pure, hpos]
+    cases d <;> rfl
+
+/-- non-vacuity, and the formula at work: under `chaos` the suppressed call and the unconfigured
+    fault (object_store.put_fail: probability 0) consume nothing; three words for five calls -/
+example : drawCount FaultCfg.chaos false [.check 0, .suppress true, .check 0, .suppress false, .check 26, .checkProb 26 0, .check 6] = 3 := by
+  decide
+
+
+/-! ### the whole fault table, derived from the source (`Model/SimFaultTable.lean` is generated from
+`faults.rs` / `config.rs`; the real objects are compared with it on every run) -/
+
+/-- the first draw value that does NOT trigger (bisection over `[0, 10^6]`) -/
+def thresholdSearch (p : F64) : Nat → Nat → Nat → Nat
+  | 0, lo, _ => lo
+  | f + 1, lo, hi =>
+    if lo ≥ hi then lo
+    else
+      let mid := (lo + hi) / 2
+      if buggifyTriggered mid p then thresholdSearch p f (mid + 1) hi else thresholdSearch p f lo mid
+
+def thresholdOf (bits : Nat) : Nat := thresholdSearch (F64.ofBits bits) 21 0 1000000
+
+/-- `T` is a threshold of the decision at its two ends: the value just below triggers, `T` itself
+    does not, and 0 triggers iff anything does -/
+def thresholdOk (bits : Nat) : Bool :=
+  let p := F64.ofBits bits
+  let t := thresholdOf bits
+  (t == 0 || buggifyTriggered (t - 1) p) && (t == 1000000 || !buggifyTriggered t p) && (buggifyTriggered 0 p == (t != 0))
+
+/-- full strength: the decision is an exact threshold on the draw — for EVERY draw value -/
+def C20_buggify_decision_is_threshold (bits : Nat) : Prop :=
+  ∀ r, r < 1000000 → (buggifyTriggered r (F64.ofBits bits) = true ↔ r < thresholdOf bits)
+
+/-- `FaultConfig::get` for every fault of the catalogue under the three presets: the exact f64
+    product `base * global_multiplier`, clamped.  (chaos: `0.05 * 3.0` is `0.15000000000000002`, not `0.15`.) -/
+theorem preset_get_table :
+    (List.range 40).map FaultCfg.calm.get =
+      [4547007122018943789, 0, 0, 0, 0, 0, 4562254508917369340, 0, 4547007122018943789, 4547007122018943789, 0, 0, 0, 0, 0, 0,
+       0, 0, 0, 0, 0, 0, 0, 0, 0, 0, 0, 0, 0, 0, 0, 0, 0, 0, 0, 0, 0, 0, 0, 0] ∧
+    (List.range 40).map FaultCfg.moderate.get =
+      [4576918229304087675, 4562254508917369340, 4572414629676717179, 4581421828931458171, 4572414629676717179,
+       4576918229304087675, 4587366580439587226, 4572414629676717179, 4576918229304087675, 4576918229304087675,
+       4576918229304087675, 4572414629676717179, 4562254508917369340, 4557750909289998844, 4562254508917369340,
+       4576918229304087675, 4581421828931458171, 4547007122018943789, 4576918229304087675, 4562254508917369340,
+       4562254508917369340, 4547007122018943789, 4581421828931458171, 4557750909289998844, 4562254508917369340,
+       4547007122018943789, 0, 0, 0, 0, 0, 0, 0, 0, 0, 4581421828931458171, 4587366580439587226, 4562254508917369340,
+       4547007122018943789, 4576918229304087675] ∧
+    (List.range 40).map FaultCfg.chaos.get =
+      [4594572339843380020, 4584304132692975288, 4588807732320345784, 4599075939470750516, 4588807732320345784,
+       4594572339843380020, 4601778099247172812, 4588807732320345784, 4594572339843380020, 4594572339843380020,
+       4594572339843380020, 4588807732320345784, 4584304132692975288, 4579800533065604792, 4579800533065604792,
+       4594572339843380020, 4599075939470750516, 4569063951553953530, 4594572339843380020, 4579800533065604792,
+       4579800533065604792, 4569063951553953530, 4599075939470750516, 4573567551181324026, 4579800533065604792,
+       4569063951553953530, 0, 0, 0, 0, 0, 0, 0, 0, 0, 4599075939470750516, 4601778099247172812, 4579800533065604792,
+       4569063951553953530, 4594572339843380020] ∧
+    (List.range 40).map FaultCfg.disabled.get = List.replicate 40 0 ∧
+    (List.range 40).map FaultCfg.new.get = List.replicate 40 0 := by
+  decide
+
+set_option maxRecDepth 20000 in
+/-- … and, for every fault under every preset, how many of the 10^6 draw values trigger it
+    (`_partial`: the two ends of the threshold are checked, `C20_buggify_decision_is_threshold` is the
+    full statement — it needs the monotonicity of the correctly rounded quotient `r / 10^6`, not
+    proved).  The object-store faults (indices 26–34) are in no preset: they never trigger and never
+    draw under `should_buggify`; the streaming stores consult them with an explicit probability. -/
+theorem preset_threshold_table_partial :
+    (List.range 40).map (fun i => thresholdOf (FaultCfg.calm.get i)) =
+      [100, 0, 0, 0, 0, 0, 1000, 0, 100, 100, 0, 0, 0, 0, 0, 0, 0, 0, 0, 0, 0, 0, 0, 0, 0, 0, 0, 0, 0, 0, 0, 0, 0, 0, 0, 0, 0, 0, 0, 0] ∧
+    (List.range 40).map (fun i => thresholdOf (FaultCfg.moderate.get i)) =
+      [10000, 1000, 5000, 20000, 5000, 10000, 50000, 5000, 10000, 10000, 10000, 5000, 1000, 500, 1000, 10000, 20000, 100,
+       10000, 1000, 1000, 100, 20000, 500, 1000, 100, 0, 0, 0, 0, 0, 0, 0, 0, 0, 20000, 50000, 1000, 100, 10000] ∧
+    (List.range 40).map (fun i => thresholdOf (FaultCfg.chaos.get i)) =
+      [150001, 30000, 60000, 300001, 60000, 150001, 450000, 60000, 150001, 150001, 150001, 60000, 30000, 15000, 15000, 150001,
+       300001, 3000, 150001, 15000, 15000, 3000, 300001, 6000, 15000, 3000, 0, 0, 0, 0, 0, 0, 0, 0, 0, 300001, 450000, 15000,
+       3000, 150001] ∧
+    ((List.range 40).all fun i => thresholdOk (FaultCfg.calm.get i) && thresholdOk (FaultCfg.moderate.get i) && thresholdOk (FaultCfg.chaos.get i)) = true := by
+  decide
+
+/-- the convenience macros: `buggify_rarely!` 0.001, `buggify_sometimes!` 0.05, `buggify_often!` 0.20 -/
+theorem buggify_macro_thresholds :
+    thresholdOf 0x3F50624DD2F1A9FC = 1000 ∧ thresholdOf 0x3FA999999999999A = 50000 ∧ thresholdOf 0x3FC999999999999A = 200000 ∧
+    thresholdOk 0x3F50624DD2F1A9FC = true ∧ thresholdOk 0x3FA999999999999A = true ∧ thresholdOk 0x3FC999999999999A = true := by
+  decide
+
+/-- what `get` returns is NaN or lies in `[0, 1]` — whatever base probability and multiplier: the
+    clamp is the last step -/
+theorem fault_get_in_unit_interval (c : FaultCfg) (id : Nat) :
+    (F64.ofBits (c.get id)).isNaN = true ∨
+    (f64Lt (F64.ofBits (c.get id)) (F64.ofBits 0) = false ∧ f64Lt (F64.ofBits SimBuggify.bits_1_0) (F64.ofBits (c.get id)) = false) := by
+  unfold FaultCfg.get
+  split
+  · right; decide
+  · generalize f64Mul _ _ = b
+    unfold clampBits
+    simp only
+    split
+    · left; assumption
+    · split
+      · right; decide
+      · split
+        · right; decide
+        · right; constructor <;> simp_all
+
+/-- `set` stores the clamped probability; out-of-range and special values, concretely -/
+theorem fault_set_clamps :
+    clampBits 0x3FF8000000000000 = SimBuggify.bits_1_0 ∧ clampBits 0xBFD0000000000000 = 0 ∧ clampBits 0x7FF0000000000000 = SimBuggify.bits_1_0 ∧
+    clampBits 0xFFF0000000000000 = 0 ∧ clampBits 0x8000000000000000 = 0x8000000000000000 ∧ clampBits bitsNaN = bitsNaN ∧
+    maxZeroBits bitsNaN = 0 ∧ maxZeroBits 0xBFF0000000000000 = 0 ∧ maxZeroBits 0x4008000000000000 = 0x4008000000000000 := by
+  decide
+
+/-- the exact product at the corners: a subnormal result, an overflow, `0 * inf` -/
+theorem f64_mul_table :
+    f64Mul (F64.ofBits 0x3F50624DD2F1A9FC) (F64.ofBits 0x3FB999999999999A) = 0x3F1A36E2EB1C432D ∧
+    f64Mul (F64.ofBits 0x3FA999999999999A) (F64.ofBits 0x4008000000000000) = 0x3FC3333333333334 ∧
+    f64Mul (F64.ofBits 1) (F64.ofBits 0x3FE0000000000000) = 0 ∧
+    f64Mul (F64.ofBits 3) (F64.ofBits 0x3FE0000000000000) = 2 ∧
+    f64Mul (F64.ofBits 0x7FEFFFFFFFFFFFFF) (F64.ofBits 0x4000000000000000) = bitsInf ∧
+    f64Mul (F64.ofBits 0) (F64.ofBits bitsInf) = bitsNaN := by
+  decide
 
 end C20
 end RedisVerif
